@@ -9,18 +9,18 @@ Record gcase (T : Type) := mkgcase {
   gA : list (list T);        (* dense operator, rows *)
   gB : list (list T);        (* right-hand sides, one list per column *)
   gX0 : list (list T);       (* initial guesses, one list per column *)
-  gtol : T; gmfac : T; gm : N; gflag : bool; gfpad : bool; gfself : bool; gfzero : bool;
+  gtol : T; gmfac : T; gm : N; gflag : bool; gfpad : bool; gfself : bool; gfzero : bool; gfabs : bool;
   geX : list (list T);       (* cola's solution, per column *)
   geScale : list float;      (* per column: max |entry| of cola's solution *)
   geSteps : N                (* number of products with A, minus the one for the initial residual *)
 }.
-Arguments gA {T}. Arguments gB {T}. Arguments gX0 {T}. Arguments gtol {T}. Arguments gmfac {T}. Arguments gm {T}. Arguments gflag {T}. Arguments gfpad {T}. Arguments gfself {T}. Arguments gfzero {T}.
+Arguments gA {T}. Arguments gB {T}. Arguments gX0 {T}. Arguments gtol {T}. Arguments gmfac {T}. Arguments gm {T}. Arguments gflag {T}. Arguments gfpad {T}. Arguments gfself {T}. Arguments gfzero {T}. Arguments gfabs {T}.
 Arguments geX {T}. Arguments geScale {T}. Arguments geSteps {T}.
 
 Section Check.
 Context {T : Type} (o : ops T) (close : float -> float -> T -> T -> bool) (rtol : float).
 Definition grun (c : gcase T) : gres (V:=list T) :=
-  gmres_fwd o (lvops o) (mv o (gA c)) (ge_solve o) (gflag c) (gfpad c) (gfself c) (gfzero c) (gtol c) (gmfac c) (N.to_nat (gm c)) (length (gA c)) (gB c) (gX0 c).
+  gmres_fwd o (lvops o) (mv o (gA c)) (ge_solve o) (gflag c) (gfpad c) (gfself c) (gfzero c) (gfabs c) (gtol c) (gmfac c) (N.to_nat (gm c)) (length (gA c)) (gB c) (gX0 c).
 Definition gagree (c : gcase T) : bool :=
   let r := grun c in
   N.eqb (N.of_nat (gsteps r)) (geSteps c)
